@@ -1474,17 +1474,34 @@ impl SchedX {
             k[31] = 1;
             k
         };
+        // L5: three commit workers, a commit that rewrites ≈ 300 value leaves spread over all
+        // three workers' ranges, and the very first leaf-page write fails: the leaf stage returns
+        // with the first failed worker's error while its other workers are still at work
+        let l5 = name == "L5";
+        if l5 {
+            cf.cc = 3;
+        }
         let n = open_nomt::<B3>(&dir, &cf).expect("open");
-        commit_kv(&n, &[(pair(63, 0), Some(val(1)))]).expect("base commit");
-        // 40 pairs: 40 fresh depth-1 pages, i.e. 40 bucket pages + meta pages in one write-out
         let mut batch: Vec<(Key, Option<Vec<u8>>)> = vec![];
-        for i in 0..40u8 {
-            batch.push((pair(i, 0), Some(val(2))));
-            batch.push((pair(i, 1), Some(val(3))));
+        if l5 {
+            let mut rng = crate::util::Lcg(77);
+            let mut keys: Vec<Key> = (0..900).map(|_| rng.key()).collect();
+            keys.sort();
+            keys.dedup();
+            let base: Vec<(Key, Option<Vec<u8>>)> = keys.iter().map(|k| (*k, Some(vec![1u8; 1000]))).collect();
+            commit_kv(&n, &base).expect("base commit");
+            batch = keys.iter().map(|k| (*k, Some(vec![2u8; 1100]))).collect();
+        } else {
+            commit_kv(&n, &[(pair(63, 0), Some(val(1)))]).expect("base commit");
+            // 40 pairs: 40 fresh depth-1 pages, i.e. 40 bucket pages + meta pages in one write-out
+            for i in 0..40u8 {
+                batch.push((pair(i, 0), Some(val(2))));
+                batch.push((pair(i, 1), Some(val(3))));
+            }
         }
         vio::enable();
-        vio::set_page_write_delay(2000);
-        vio::arm(vio::Fault { file: "ht".into(), tag: "write".into(), ordinal: 0, persistent: false, page_at: vio::PageFaultAt::Submission, abort: false, cqe: None });
+        vio::set_page_write_delay(if l5 { 500 } else { 2000 });
+        vio::arm(vio::Fault { file: if l5 { "ln".into() } else { "ht".into() }, tag: "write".into(), ordinal: 0, persistent: false, page_at: vio::PageFaultAt::Submission, abort: false, cqe: None });
         let r = commit_kv(&n, &batch);
         vio::mark("old-handle-dropped");
         // a second thread races for the directory while this one is inside the drop
@@ -1518,7 +1535,7 @@ impl SchedX {
             out.violation = Some(Violation::new("machinery", format!("harness {name}: the injected hash-table write failure did not fail the commit (fired {fired}, result {r:?})")));
             return out;
         }
-        out.goals.push("commit-failed-in-ht-writeout");
+        out.goals.push(if l5 { "commit-failed-in-leaf-stage" } else { "commit-failed-in-ht-writeout" });
         let n2 = match second {
             Ok(n2) => n2,
             Err(e) => {
@@ -1528,7 +1545,7 @@ impl SchedX {
         };
         let mark = events.iter().find(|e| matches!(&e.kind, vio::Kind::Mark(l) if l == "second-handle-open")).map(|e| e.seq).unwrap_or(u64::MAX);
         let dropped = events.iter().find(|e| matches!(&e.kind, vio::Kind::Mark(l) if l == "old-handle-dropped")).map(|e| e.seq).unwrap_or(0);
-        let queued_at_error = events.iter().filter(|e| e.file == "ht" && matches!(e.kind, vio::Kind::Write { .. }) && e.seq < dropped).count();
+        let queued_at_error = events.iter().filter(|e| (e.file == "ht" || l5) && matches!(e.kind, vio::Kind::Write { .. }) && e.seq < dropped).count();
         if queued_at_error > 10 {
             out.goals.push("page-writes-queued-behind-the-failure");
         }
@@ -1543,7 +1560,7 @@ impl SchedX {
         if !late.is_empty() {
             out.violation = Some(Violation::new(
                 format!("io-after-unlock:{}:{name}", late[0]),
-                format!("harness {name}: a commit failed in the hash-table write-out with page writes still queued; the handle was dropped and a second handle opened (so the directory lock had been released), and {} file operation(s) of the OLD handle were performed after that: {}", late.len(), late.iter().take(6).cloned().collect::<Vec<_>>().join(", ")),
+                format!("harness {name}: a commit failed in {} with page writes still queued;", if l5 { "the value-tree leaf stage (one of three workers)" } else { "the hash-table write-out" })+&format!(" the handle was dropped and a second handle opened (so the directory lock had been released), and {} file operation(s) of the OLD handle were performed after that: {}", late.len(), late.iter().take(6).cloned().collect::<Vec<_>>().join(", ")),
             ));
             std::mem::forget(n2);
             return out;
@@ -1755,7 +1772,7 @@ impl SchedX {
         if name == "L1" || name == "L2" {
             return self.run_late_writers(&name);
         }
-        if name == "L3" {
+        if name == "L3" || name == "L5" {
             return self.run_late_io(&name);
         }
         if name == "L4" {
@@ -1828,8 +1845,8 @@ impl Engine for SchedX {
                 "schedx: closed harnesses of 2–3 real threads on two colliding keys (same value leaf, same merkle page), values stamped with the writer's version, rollback enabled: H1 reader∥blocking writer; H2 reader∥non-blocking writer (prepared changeset, retried blocking when handed back); H3/H3nb/H3ov two writers with changesets on one base (blocking / non-blocking / overlay) followed by reopen and rollback(1); H4 reader∥rollback; H5 reader∥writer∥writer; H6 one thread with two overlapping sessions∥writer; H6w one thread, warm-up on and one commit worker, two overlapping sessions, the second one finished while the first is alive; H6r one thread, rollback enabled, three overlapping sessions, the third one finished while the first two are alive; H8/H8ov/H8r a changeset or overlay prepared on the current state ∥ rollback(1) [∥ a reader]: the writers serialise — commit then rollback (final = the state before the commit, one further rollback possible) or rollback then commit (the changeset is refused, final = the rolled-back state); H7 two threads proving different keys (present and absent) through ONE shared session on a cold store, with scheduling points at every I/O submission and every wait for a completion of the calling threads (the scheduler lets outstanding reads complete before it decides, so the enabled set does not depend on I/O speed). EVERY schedule of the visible points (API lock acquisitions with parking_lot's writer-preferring FIFO fairness modelled in the scheduler, the read-transaction wait, harness points between session operations) with ≤c preemptions is executed on a fresh store, c = 0,1,2 (thorough 3). Oracle per schedule: terminates (no enabled thread = deadlock); all reads and the proof of one session agree with one committed version and with session.prev_root(); exactly one of two competing changesets wins; final state, root and state after reopen are the winner's; rollback(1) restores the base. One case = one harness × one bound; evaluations = cases, transitions = scheduler steps, states = distinct schedules (trace digests).",
             ),
             "C20" => (
-                vec!["O1", "O2", "O2x3", "O3", "O4", "L1", "L2", "L3", "L4", "P1", "P1k"],
-                "schedx: O1 two threads open one existing directory concurrently; O2 / O2x3 two / three threads open one non-existent directory (creation race) with different options; O3 a live handle ∥ a second opener that retries after the first is dropped; O4 a holder that drops ∥ two openers (three-party hand-over). L1 / L2 (rollback off / on; one fixed order of events, bounds do not apply): a commit on a full 4-bucket table that fails with bucket exhaustion while the value store has ≈60 pages to write, executed with every sync-pipeline task held back until somebody waits for it (a task nobody joins runs as late as possible); the handle is dropped, a second handle is opened, and every mutating or syncing file operation recorded after that open returned must come from the opening thread — 'all background writers of the old handle have finished'; the second handle shows the state before the failed commit and commits. L3: a commit whose hash-table write-out fails at its first page (injected) while ≈40 more page writes are queued on a slow device (2 ms per write): after drop and second open no page write of the old handle may be performed. L4: sessions with warm-up abandoned without finish, handle dropped: the directory must become openable again within 8 s. P1 / P1k: the holder is ANOTHER PROCESS (a child running the same binary): while it is idle every open from this process (same and different options) must fail and leave every file byte-identical; while it is in the middle of a slow commit opens must still fail; after it is killed with SIGKILL — idle after an acknowledged commit (P1) or in the middle of the commit (P1k) — the directory must open at once and hold the last acknowledged state (P1k: that or the interrupted commit's) and accept a commit. Process death at every file operation: for 12 (thorough: all) explicit histories of C03 the last operation is re-run in a child process that aborts right before its k-th file operation, for every k; the directory must open at once in this process and the new handle must commit. Every schedule of the open/create/lock/drop points (emptiness check, lock acquisition, creation of meta / hash table / value files, flock try and unlock, I/O-pool shutdown) with ≤c preemptions, c = 0,1,2 (thorough 3). Oracle: never two handles alive at once; a refused open returns an error and leaves every file byte-identical (holder idle); every successful opener's handle commits and reads back; whenever some opener succeeded, the directory afterwards opens and holds the last committed state (no racing opener may wipe or re-initialise it).",
+                vec!["O1", "O2", "O2x3", "O3", "O4", "L1", "L2", "L3", "L4", "L5", "P1", "P1k"],
+                "schedx: O1 two threads open one existing directory concurrently; O2 / O2x3 two / three threads open one non-existent directory (creation race) with different options; O3 a live handle ∥ a second opener that retries after the first is dropped; O4 a holder that drops ∥ two openers (three-party hand-over). L1 / L2 (rollback off / on; one fixed order of events, bounds do not apply): a commit on a full 4-bucket table that fails with bucket exhaustion while the value store has ≈60 pages to write, executed with every sync-pipeline task held back until somebody waits for it (a task nobody joins runs as late as possible); the handle is dropped, a second handle is opened, and every mutating or syncing file operation recorded after that open returned must come from the opening thread — 'all background writers of the old handle have finished'; the second handle shows the state before the failed commit and commits. L3: a commit whose hash-table write-out fails at its first page (injected) while ≈40 more page writes are queued on a slow device (2 ms per write): after drop and second open no page write of the old handle may be performed. L5: three commit workers, a commit rewriting ≈300 value leaves whose first leaf-page write fails (the leaf stage returns with the first failed worker's error while the other workers are still at work), slow device, racing opener: again no page write of the old handle after the second open. L4: sessions with warm-up abandoned without finish, handle dropped: the directory must become openable again within 8 s. P1 / P1k: the holder is ANOTHER PROCESS (a child running the same binary): while it is idle every open from this process (same and different options) must fail and leave every file byte-identical; while it is in the middle of a slow commit opens must still fail; after it is killed with SIGKILL — idle after an acknowledged commit (P1) or in the middle of the commit (P1k) — the directory must open at once and hold the last acknowledged state (P1k: that or the interrupted commit's) and accept a commit. Process death at every file operation: for 12 (thorough: all) explicit histories of C03 the last operation is re-run in a child process that aborts right before its k-th file operation, for every k; the directory must open at once in this process and the new handle must commit. Every schedule of the open/create/lock/drop points (emptiness check, lock acquisition, creation of meta / hash table / value files, flock try and unlock, I/O-pool shutdown) with ≤c preemptions, c = 0,1,2 (thorough 3). Oracle: never two handles alive at once; a refused open returns an error and leaves every file byte-identical (holder idle); every successful opener's handle commits and reads back; whenever some opener succeeded, the directory afterwards opens and holds the last committed state (no racing opener may wipe or re-initialise it).",
             ),
             _ => panic!("schedx has no plan for {prop}"),
         };
